@@ -4,6 +4,7 @@ import (
 	"bytes"
 	"encoding/binary"
 	"errors"
+	"fmt"
 	"io"
 	"math"
 	"os"
@@ -190,6 +191,13 @@ func (fw *FileWriter) openExistingFile() error {
 	if last >= 0 && !blockIntactAt(file, last, end) {
 		end = last
 	}
+	// A torn tail holds no whole block. If an intact block lies behind the cut point, this is a
+	// damaged block in the middle of the file: cutting here would destroy every block behind it,
+	// appending would hide the new records. Leave the file alone and report.
+	if end < info.Size() && intactBlockBehind(file, end, info.Size()) {
+		file.Close()
+		return fmt.Errorf("%w at offset %d of %s, intact blocks follow: file left untouched", ErrCorruptedBlock, end, fw.filePath)
+	}
 	if end < info.Size() {
 		if err := file.Truncate(end); err != nil {
 			file.Close()
@@ -221,6 +229,28 @@ func blockIntactAt(file *os.File, start, end int64) bool {
 		return false
 	}
 	return ValidateChecksum(buf[BlockHeaderSize:], binary.LittleEndian.Uint32(buf[10:14]))
+}
+
+// intactBlockBehind reports whether a block with a matching checksum starts anywhere in
+// (from, size) of file. Tails too large to look at are taken to hold one (nothing is cut).
+func intactBlockBehind(file *os.File, from, size int64) bool {
+	if size-from > 256<<20 {
+		return true
+	}
+	tail := make([]byte, size-from)
+	if _, err := file.ReadAt(tail, from); err != nil {
+		return true
+	}
+	for i := 1; i+BlockHeaderSize < len(tail); i++ {
+		n := int(binary.LittleEndian.Uint32(tail[i : i+4]))
+		if n == 0 || n > len(tail)-i-BlockHeaderSize {
+			continue
+		}
+		if ValidateChecksum(tail[i+BlockHeaderSize:i+BlockHeaderSize+n], binary.LittleEndian.Uint32(tail[i+10:i+14])) {
+			return true
+		}
+	}
+	return false
 }
 
 // validateEntry rejects entries the on-disk format cannot represent. The key
